@@ -1,6 +1,6 @@
 (** Correspondence evaluator for C12 (internal/stats numerics). *)
-From Coq Require Import ZArith QArith Qround List Bool.
-From Perf Require Import Base.Bytes Base.Sx Base.B64 Base.SxF Model.StatsF Model.Beta Model.TDist Model.Bisect Model.TTest Model.NormalDist Base.B64Q Model.StatsQ Model.TRefTable Proofs.TTest.
+From Coq Require Import ZArith QArith Qround Qminmax List Bool.
+From Perf Require Import Base.Bytes Base.Sx Base.B64 Base.SxF Model.StatsF Model.Beta Model.TDist Model.Bisect Model.TTest Model.NormalDist Base.B64Q Model.StatsQ Model.TRefTable Proofs.TTest Model.TTestQ.
 Import ListNotations.
 Local Open Scope Z_scope.
 
@@ -386,6 +386,109 @@ Definition decision_tt (c : tt_case) : option terr :=
 
 Definition in_unit (p : b64) : bool := b64_le b64_zero p && b64_le p b64_one.
 
+(** ** textbook statistic and degrees of freedom in exact rationals (Model/TTestQ.v)
+
+    From raw samples: mean_q / variance_ps_q of the samples scaled to integers
+    (paired: of the exact differences). The observed t and nu must agree with
+    the textbook formulas evaluated by interval arithmetic over Q on
+      mean_i +- (4 + n_i/2) u_i,   var_i +- (4 + n_i/2) u_i max|x_i|   (u_i = 2^-52 max|x_i|:
+    the stated accuracy of Mean / Variance), widened by the relative slack rho = 2^-46
+    (64 ulps) for the handful of further rounded operations:
+      t^2 W = D^2 and sign t = sign D;  nu = Welch-Satterthwaite / n1+n2-2 / n-1;
+      Welch: (min(n1,n2) - 1)(1 - rho) <= nu <= (n1+n2-2)(1 + rho)   (Proofs/TTestQ.welch_dof_bounds).
+    From summary triples the same check with the given n, mean, variance taken as exact. *)
+Local Open Scope Q_scope.
+Definition rho : Q := Q_of_ZE 1 (-46).
+
+Record qstat := mkQS { qs_n : Q; qs_m : Q; qs_v : Q; qs_em : Q; qs_ev : Q }.
+
+Definition qstat_of_ints (zs : list Z) (extra : Q) : qstat :=
+  let zq := map inject_Z zs in
+  let n := inject_Z (Z.of_nat (length zs)) in
+  let maxabs := inject_Z (zmax_abs zs) in
+  let u := maxabs * Q_of_ZE 1 (-52) in
+  mkQS n (mean_q zq) (variance_ps_q zq) ((4 + extra + n / 2) * u) ((4 + extra + n / 2) * u * maxabs).
+
+(** statistics of a sample descriptor in units of 2^E (variance: 4^E) *)
+Definition qstat_of (E : Z) (d : sdesc) : option qstat :=
+  match d with
+  | SRaw xs => if all_finite xs then Some (qstat_of_ints (map (scaled_int E) xs) 0) else None
+  | SSum n m v =>
+      match b64_to_Q n, b64_to_Q_scaled E m, b64_to_Q_scaled (2 * E) v with
+      | Some nq, Some mq, Some vq => Some (mkQS nq mq vq 0 0)
+      | _, _, _ => None
+      end
+  end.
+
+Definition qpos (q : Q) : Q := if Qle_bool 0 q then q else 0.
+Definition qsign (q : Q) : Z := Z.sgn (Qnum q).
+
+(** t^2 W = D^2 within the intervals D in |D| +- dd, W in [wlo, whi] (wlo clipped at 0) *)
+Definition tstat_ok (t D dd wlo whi : Q) : bool :=
+  let da := Qabs' D in
+  let dlo := qpos (da - dd) in
+  let dhi := da + dd in
+  let T := t * t in
+  Qle_bool (dlo * dlo * (1 - rho)) (T * whi) && Qle_bool (T * qpos wlo) (dhi * dhi * (1 + rho))
+  && (if Qle_bool da dd then true else (qsign t =? qsign D)%Z).
+
+Definition rel_close (a b scale : Q) : bool := Qclose a b (rho * Qabs' scale).
+
+Definition tt_textbook_ok (c : tt_case) (t dof : b64) : bool :=
+  let E := match tt_s1 c, tt_s2 c with
+           | SRaw a, SRaw b => min_exp (a ++ b)
+           | SRaw a, _ => min_exp a
+           | _, SRaw b => min_exp b
+           | _, _ => 0%Z
+           end in
+  match b64_to_Q t, b64_to_Q dof, b64_to_Q_scaled E (tt_mu0 c) with
+  | Some tq, Some nu, Some mu0 =>
+    let test := tt_test c in
+    if (test =? 2)%Z then
+      (* paired: one-sample test of the exact differences; 2 extra ulps for the rounded subtractions *)
+      let x1 := raw_of (tt_s1 c) in let x2 := raw_of (tt_s2 c) in
+      if all_finite x1 && all_finite x2 then
+        let ds := map (fun '(a, b) => (scaled_int E a - scaled_int E b)%Z) (combine x1 x2) in
+        let s := qstat_of_ints ds 2 in
+        let n := qs_n s in
+        Qeq_bool nu (n - 1)
+        && tstat_ok tq (qs_m s - mu0) (qs_em s) ((qs_v s - qs_ev s) / n) ((qs_v s + qs_ev s) / n)
+      else true
+    else
+    match qstat_of E (tt_s1 c), qstat_of E (tt_s2 c) with
+    | Some s1, Some s2 =>
+      let n1 := qs_n s1 in let n2 := qs_n s2 in
+      if (test =? 3)%Z then
+        if Qle_bool n1 0 || negb (Qle_bool 0 (qs_v s1)) then true else
+        rel_close nu (n1 - 1) (n1 + 1)
+        && tstat_ok tq (qs_m s1 - mu0) (qs_em s1) ((qs_v s1 - qs_ev s1) / n1) ((qs_v s1 + qs_ev s1) / n1)
+      else if (test =? 1)%Z then
+        if Qle_bool n1 1 || Qle_bool n2 1 || negb (Qle_bool 0 (qs_v s1)) || negb (Qle_bool 0 (qs_v s2)) then true else
+        let q1lo := qpos (qs_v s1 - qs_ev s1) / n1 in let q1hi := (qs_v s1 + qs_ev s1) / n1 in
+        let q2lo := qpos (qs_v s2 - qs_ev s2) / n2 in let q2hi := (qs_v s2 + qs_ev s2) / n2 in
+        let wlo := q1lo + q2lo in let whi := q1hi + q2hi in
+        let denlo := q1lo * q1lo / (n1 - 1) + q2lo * q2lo / (n2 - 1) in
+        let denhi := q1hi * q1hi / (n1 - 1) + q2hi * q2hi / (n2 - 1) in
+        tstat_ok tq (qs_m s1 - qs_m s2) (qs_em s1 + qs_em s2) wlo whi
+        && Qle_bool (wlo * wlo * (1 - rho)) (nu * denhi) && Qle_bool (nu * denlo) (whi * whi * (1 + rho))
+        && Qle_bool ((Qmin n1 n2 - 1) * (1 - rho)) nu && Qle_bool nu ((n1 + n2 - 2) * (1 + rho))
+      else
+        (* pooled *)
+        if Qle_bool n1 0 || Qle_bool n2 0 || Qle_bool (n1 + n2) 2 || negb (Qle_bool 1 n1) || negb (Qle_bool 1 n2)
+           || negb (Qle_bool 0 (qs_v s1)) || negb (Qle_bool 0 (qs_v s2)) then true else
+        let k := (1 / n1 + 1 / n2) / (n1 + n2 - 2) in
+        let wlo := ((n1 - 1) * qpos (qs_v s1 - qs_ev s1) + (n2 - 1) * qpos (qs_v s2 - qs_ev s2)) * k in
+        let whi := ((n1 - 1) * (qs_v s1 + qs_ev s1) + (n2 - 1) * (qs_v s2 + qs_ev s2)) * k in
+        rel_close nu (n1 + n2 - 2) (n1 + n2 + 2)
+        && tstat_ok tq (qs_m s1 - qs_m s2) (qs_em s1 + qs_em s2) wlo whi
+    | _, _ => true
+    end
+  | _, _, _ =>
+      (* a non-finite statistic is only acceptable for the irregular summaries excluded above *)
+      match tt_s1 c, tt_s2 c with SRaw _, SRaw _ => false | _, _ => true end
+  end.
+Local Close Scope Q_scope.
+
 Definition prop_tt (c : tt_case) : bool :=
   match tt_out c, decision_tt c with
   | OErr code, Some e => err_code e =? code
@@ -396,6 +499,7 @@ Definition prop_tt (c : tt_case) : bool :=
           else if tt_test c =? 2 then n2 =? Z.of_nat (length (raw_of (tt_s2 c)))
           else optZ_is (b64_to_int (ts_n s2)) n2)
       && (alt =? tt_alt c)
+      && tt_textbook_ok c t dof
       && (if b64_is_nan t || b64_is_nan dof then true else
           match p_value (oracle2 (tt_cdf c)) t dof alt with
           | Val p' => b64_same p p' && (if b64_is_nan p then true else in_unit p)
@@ -430,19 +534,17 @@ Definition prop_sweep_cdf (fs : list b64) (pan : bool) : bool :=
   end.
 
 (** InvCDF o CDF: x = InvCDF(y) nondecreasing in y, CDF(x) >= y (bisection post-condition),
-    |CDF(x) - y| <= 1e-9 or (CDF(x)-y)^2 <= 1e-17 nu  (t; the nu-dependent slack is the
-    cancellation of V/(V+x*x) near x = 0, finding C12_tcdf_small_x_cancellation);
-    normal (own InvCDF): |CDF(x) - y| <= 1e-11 *)
+    |CDF(x) - y| <= 1e-10 (t, generic bisection; observed <= 3e-13 since the repair of the
+    small-x cancellation, 7450c97); normal (own InvCDF): |CDF(x) - y| <= 1e-11 *)
+Definition tol_tinv : Q := 1 # 10000000000.         (* 1e-10 *)
 Definition prop_sweep_inv (which : Z) (p1 : b64) (ys xs fs : list b64) (pan : bool) : bool :=
   negb pan && nondecreasing_f xs &&
-  match omap qf ys, omap qf fs, qf p1 with
-  | Some yq, Some fq, Some nu =>
+  match omap qf ys, omap qf fs with
+  | Some yq, Some fq =>
       all2 (fun y f =>
-              if which =? 2 then
-                Qle_bool y f &&
-                (Qle_bool (f - y) (1 # 1000000000) || Qle_bool ((f - y) * (f - y)) ((1 # 100000000000000000) * nu))
+              if which =? 2 then Qle_bool y f && Qle_bool (f - y) tol_tinv
               else Qclose f y tol_ninv) yq fq
-  | _, _, _ => false
+  | _, _ => false
   end.
 
 Definition prop_sweep_beta (rows : list sx) (pan : bool) : bool :=
@@ -481,13 +583,15 @@ Definition prop_ref (l : list sx) : option bool :=
   | _ => None
   end.
 
-(** slope at the origin: 0.3182 x <= F(x) - 1/2 <= 0.39895 x for 0 < x <= 0.01, nu >= 1 *)
+(** slope at the origin: 0.3182 x - 2^-53 <= F(x) - 1/2 <= 0.39895 x + 2^-53 for 0 < x <= 0.01, nu >= 1
+    (2^-53: half an ulp of the returned value near 1/2) *)
 Definition prop_slope (l : list sx) : option bool :=
   match l with
   | [v; x; f] =>
       do x <- as_f64 x; do f <- as_f64 f;
       match qf x, qf f with
-      | Some xq, Some fq => Some (Qle_bool ((3182 # 10000) * xq) (fq - (1 # 2)) && Qle_bool (fq - (1 # 2)) ((39895 # 100000) * xq))
+      | Some xq, Some fq => Some (Qle_bool ((3182 # 10000) * xq - pow2Q (-53)) (fq - (1 # 2))
+                                  && Qle_bool (fq - (1 # 2)) ((39895 # 100000) * xq + pow2Q (-53)))
       | _, _ => Some false
       end
   | _ => None
